@@ -17,6 +17,8 @@ import (
 type IdP struct {
 	mu  sync.Mutex
 	log *Log
+	// OnFire is called when a scripted answer is used.
+	OnFire func(kind string)
 
 	ClientID, ClientSecret string
 	TokenTTL               time.Duration
@@ -312,6 +314,9 @@ func (p *IdP) backchannel(endpoint string, rw http.ResponseWriter, req *http.Req
 	if a == nil {
 		genuine(rw, req)
 		return
+	}
+	if p.OnFire != nil {
+		p.OnFire("l3." + endpoint + "." + a.Tag)
 	}
 	if a.Hang {
 		// never answer: the caller's own timeout fires (virtual time)
